@@ -81,6 +81,38 @@ def EGsrc (nuGiven : Bool) : Machine EGState := EG egRules nuGiven
 def TOsrc : Machine TOState := TO toClones
 def CRsrc : Machine CRState := CR crRule
 
+/-! ### "every fit overwrites all fitted state a prediction can see" -/
+
+/-- the shape of a `fit`: attributes it (re)assigns on every path, attributes it assigns on some paths only, fitted
+    attributes it may read before having reassigned them, attributes the prediction entry points read -/
+structure FitShape where
+  uncond : List String
+  cond : List String
+  historyReads : List String
+  predictReads : List String
+
+/-- fitted state as provenance: attribute ↦ (data id of the fit that wrote it, computed from that fit's inputs only?) -/
+abbrev FittedState := String → Option (Nat × Bool)
+
+/-- one call of `fit` on data `d`: unconditional attributes are rewritten, conditional ones if `choose` says so (a
+    branch taken or not — it may depend on anything), the rest keeps its old value; a value is `clean` iff the fit
+    read no stale fitted state -/
+def fitOn (sh : FitShape) (choose : String → Bool) (d : Nat) (s : FittedState) : FittedState := fun a =>
+  if sh.uncond.contains a then some (d, sh.historyReads.isEmpty)
+  else if sh.cond.contains a && choose a then some (d, sh.historyReads.isEmpty)
+  else s a
+
+/-- what the prediction entry points can see -/
+def observe (sh : FitShape) (s : FittedState) : List (Option (Nat × Bool)) := sh.predictReads.map s
+
+def shapeOf (c : EstCls) : FitShape :=
+  ⟨fitDefinitelyAssigned c, (fitAssigned c).filter (fun a => !(fitDefinitelyAssigned c).contains a),
+   fitHistoryReads c, predictReads c⟩
+
+/-- attributes a prediction reads that some path of `fit` leaves as an earlier fit wrote them -/
+def predictReadsNotOverwritten (c : EstCls) : List String :=
+  (predictReads c).filter (fun a => !(fitDefinitelyAssigned c).contains a)
+
 /-! ### adversarial estimators: the step function over the three lifted rules -/
 
 /-- `BackendEngine.__init__` with the lifted keep condition -/
@@ -129,6 +161,8 @@ def flagsLine : String :=
   " prefit.TO=" ++ (if toPrefitRefits then "0" else "1") ++ " clone.EG=" ++ (if clonesBeforeFit .LAG && clonesBeforeFit .EG then "1" else "0") ++
   " ret=" ++ (if estimators.all (fun c => fitReturns c == ["self"]) then "1" else "0") ++
   " predictPure=" ++ (if estimators.all (fun c => (predictAssigned c).isEmpty) then "1" else "0") ++
+  " overwritesAll=" ++ (if [EstCls.TO, .EG, .GS].all (fun c => (fitHistoryReads c).isEmpty && (predictReadsNotOverwritten c).isEmpty)
+      then "1" else "0") ++
   " paramsAssigned=" ++ ",".intercalate (estimators.map (fun c => "|".intercalate (paramsAssignedInFit c ++ paramsMutatedInFit c)))
 
 /-- `lifesrc.run <machine> <config bit> <widths> <ops>`: as `lifecycle.run`, but the rule flags come from
